@@ -67,6 +67,7 @@ def synAnswer (cs : Chars) (given : Option Expr) : String :=
   -- the canonical spelling of the given tree reads back as the tree, under xsel's syntax and XPath's
   let rt := match given with
     | some g =>
+      if !Xsel.Syntax.wfE g then "-" else
       let ts := Xsel.Syntax.renderTop g
       let okm := match parseToks cfgModel ts with | some e => Expr.same e (normCtx g) | none => false
       let oks := match parseToks cfgSpec ts with | some e => Expr.same e (normCtx g) | none => false
